@@ -29,6 +29,13 @@ type Collide struct {
 	Inner
 }
 
+// Collide2 has exactly Collide's shape and values: whatever a field name resolves to on one must be
+// what it resolves to on the other, at any time (C10 prints both side by side).
+type Collide2 struct {
+	Name string
+	Inner
+}
+
 // Meta is embedded by pointer: promoted through a pointer, also the slow path.
 type Meta struct {
 	MetaName string
@@ -71,6 +78,7 @@ type Root struct {
 	Any     interface{}
 	NoNames []string // always empty (non-nil)
 	Col     Collide
+	Col2    Collide2
 }
 
 func (r *Root) First() Item {
@@ -113,7 +121,8 @@ func GenData(t *sim.Tape, tag int) DataSpec {
 func (d DataSpec) BuildRoot() *Root {
 	r := &Root{Base: Base{BaseName: fmt.Sprintf("bn%d", d.Tag), Shared: 7}, Meta: &Meta{MetaName: fmt.Sprintf("mn%d", d.Tag)}, Title: d.Title, Count: d.Count, Flag: d.Flag,
 		One: map[string]int{"k": d.Tag}, Arr: [2]int{4, 2}, Any: "any", NoNames: []string{},
-		Col: Collide{Name: "outer", Inner: Inner{Name: "embedded", Only: "only"}}}
+		Col:  Collide{Name: "outer", Inner: Inner{Name: "embedded", Only: "only"}},
+		Col2: Collide2{Name: "outer", Inner: Inner{Name: "embedded", Only: "only"}}}
 	for i := 0; i < d.NItems; i++ {
 		it := Item{Name: fmt.Sprintf("it%d.%d", d.Tag, i), N: i + 1, Tags: []string{fmt.Sprintf("tg%d", i)}, M: map[string]string{"mk": fmt.Sprintf("mv%d", i)}, secret: "PRIVATE", extra: extra{ExtraNote: fmt.Sprintf("xn%d", i)}}
 		if i == 0 {
